@@ -208,8 +208,10 @@ void contract_vf_stream_write(vf_stream *f, const char *src, long n)
 __CPROVER_requires(VF_OSTREAM_WOK(f) && !vf_fault_enabled && n >= 0 && n <= (long)VF_MAXSTR && (size_t)f->pos + (size_t)n <= f->cap &&
                    (n == 0 || __CPROVER_r_ok(src, (size_t)n)))
 __CPROVER_assigns(f->pos, f->len, __CPROVER_object_whole(f->buf))
-__CPROVER_ensures(f->pos == __CPROVER_old(f->pos) + n &&
-                  f->len == (__CPROVER_old(f->len) > (size_t)f->pos ? __CPROVER_old(f->len) : (size_t)f->pos))
+__CPROVER_ensures(f->pos == __CPROVER_old(f->pos) + n)
+/* (an empty write does not extend the file: found by the model self-verification unit model_stream_write) */
+__CPROVER_ensures(n == 0 ==> f->len == __CPROVER_old(f->len))
+__CPROVER_ensures(n > 0 ==> f->len == (__CPROVER_old(f->len) > (size_t)f->pos ? __CPROVER_old(f->len) : (size_t)f->pos))
 __CPROVER_ensures((vf_gb >= (size_t)__CPROVER_old(f->pos) && vf_gb < (size_t)__CPROVER_old(f->pos) + (size_t)n) ==>
                   f->buf[vf_gb] == (unsigned char)src[vf_gb - (size_t)__CPROVER_old(f->pos)])
 __CPROVER_ensures((vf_gb < f->cap && !(vf_gb >= (size_t)__CPROVER_old(f->pos) && vf_gb < (size_t)__CPROVER_old(f->pos) + (size_t)n)) ==>
